@@ -221,6 +221,20 @@ mkdir_proc(char *path, const char *tracedir, const char *loom, int pid)
 		die("mkdir %s failed:", path);
 }
 
+static int
+is_same_dir(const char *a, const char *b)
+{
+	struct stat sa, sb;
+
+	if (stat(a, &sa) != 0)
+		die("stat %s failed:", a);
+
+	if (stat(b, &sb) != 0)
+		die("stat %s failed:", b);
+
+	return sa.st_dev == sb.st_dev && sa.st_ino == sb.st_ino;
+}
+
 static void
 create_proc_dir(const char *loom, int pid)
 {
@@ -240,6 +254,12 @@ create_proc_dir(const char *loom, int pid)
 		rproc.move_to_final = 1;
 		mkdir_proc(rproc.procdir, tmpdir, loom, pid);
 		mkdir_proc(rproc.procdir_final, tracedir, loom, pid);
+
+		/* The streams are already in their final place when both
+		 * are the same directory: moving a stream onto itself would
+		 * truncate it and then remove it */
+		if (is_same_dir(rproc.procdir, rproc.procdir_final))
+			rproc.move_to_final = 0;
 	} else {
 		rproc.move_to_final = 0;
 		mkdir_proc(rproc.procdir, tracedir, loom, pid);
